@@ -22,7 +22,7 @@ ASSUMPTIONS = ["term model: bare term = case-folded member of the tag's schema p
 MIN_MONITOR_EVALS = {"term-model": 1500, "or-is-disjunction": 2000, "and-implies-both": 2000, "and-symmetric": 2000,
                      "and-associative": 1000, "and-regrouping": 500, "group-form-model": 2000, "or-symmetric-in-context": 2000, "and-needs-distinct-tags": 100, "reorder-invariant": 2000,
                      "repeatable-nonmutating": 2000, "compile-or-valueerror": 2000, "unbalanced-rejected": 500,
-                     "batch-agrees": 200}
+                     "batch-agrees": 200, "expanded-object-searches-like-fresh": 1000}
 
 
 def shards(tier, seed):
@@ -398,6 +398,45 @@ def check_case(case, rec):
             rec.violation(f"search_hed_objs raised {type(ex).__name__}", dict(text=case["text"]))
 
 
+EXPAND_DEFS = ["(Definition/MyDef, (Red, Square))", "(Definition/Vdef/#, (Label/#, Blue))"]
+EXPAND_QUERIES = ["{Def-expand/MyDef}", "{Def-expand/MyDef && ???}", "[Def-expand/MyDef && Red]", "{Def-expand/MyDef && Event}",
+                  "{Def-expand/MyDef && Event:}", "{Event && {Def-expand/MyDef}}", "Def-expand/MyDef", '"Def-expand/MyDef"',
+                  "Def-exp*", "[Def-expand/Vdef/3 && Blue]", "{Def-expand/Vdef/3 && ?}", "{Red && Square}", "[Red && Label*]",
+                  "{Def-expand/MyDef: Event}", "[Def-expand/MyDef]", "Def-expand", "Def", "~Def-expand && Event",
+                  "{Def-expand && Red}", "[Def && Square]"]
+
+
+def check_expanded(case, rec):
+    """An annotation whose Def tags were expanded in place is searched like the same annotation parsed from its
+    expanded text (they are equal annotations). case: dict(kind='expanded', text, queries)"""
+    from hed.models.hed_string import HedString
+    from hed.models.definition_dict import DefinitionDict
+    schema = env.schema("8.3.0")
+    dd = DefinitionDict(EXPAND_DEFS, schema)
+    try:
+        h = HedString(case["text"], schema, dd)
+        h.expand_defs()
+        fresh = HedString(str(h), schema, dd)
+    except Exception as ex:  # noqa
+        rec.violation(f"expanding definitions before a search raised {type(ex).__name__}", case)
+        return
+    for q in case["queries"]:
+        try:
+            qh = compile_q(q)
+        except ValueError:
+            continue
+        rec.mon("expanded-object-searches-like-fresh")
+        try:
+            a, b = bool(qh.search(h)), bool(qh.search(fresh))
+        except Exception as ex:  # noqa
+            rec.violation(f"searching an expanded annotation raised {type(ex).__name__}", dict(case, query=q))
+            return
+        if a != b:
+            rec.violation("an annotation expanded in place is searched differently from the same annotation parsed afresh",
+                          dict(case, query=q))
+            return
+
+
 GROUPING = "()[]{}"
 
 
@@ -458,12 +497,26 @@ def run_shard(shard, rec):
         for q in queries:
             rec.case((text, q), nontrivial=any(op in q for op in ("&&", "||", "~", "[", "{", "(")))
         check_case(case, rec)
+        if k % 2 == 0:
+            # the same annotation with Def tags put in, expanded in place and searched
+            import copy as _copy
+            it3 = _copy.deepcopy(items)
+            for w in rng.sample(["Def/MyDef", "Def/Vdef/3", "Def/MyDef", "Event"], rng.randrange(1, 4)):
+                parents = [it3] + [g["kids"] for g, _p in annot.walk(it3) if g["t"] == "group"]
+                sibs = rng.choice(parents)
+                sibs.insert(rng.randrange(0, len(sibs) + 1), {"t": "tag", "name": w, "suffix": "", "node": None, "role": "raw", "raw": w})
+            ecase = dict(kind="expanded", text=annot.render(it3, rng), queries=EXPAND_QUERIES + queries[:20])
+            rec.case((ecase["text"], "expanded"), True)
+            check_expanded(ecase, rec)
         if rng.random() < 0.05:
             rec.sample(dict(text=text, queries=queries[:6], unbalanced=bad[:3]))
 
 
 def replay(case, rec):
     """Replay of a violation: the recorded fields are re-evaluated as a minimal case."""
+    if case.get("kind") == "expanded":
+        check_expanded(dict(case, queries=[case["query"]] if "query" in case else case["queries"]), rec)
+        return
     oracle = schema_xml.load("8.3.0")
     text = case.get("text", "Red")
     from hedmon.oracle import hedparse  # noqa
